@@ -312,6 +312,50 @@ def check_lookup_x(built, k, timeout):
     return [_bv_decide(ob, em, [], diffs, built, drv, native_ok, timeout, "gf25519.lookup16_x%d" % k)]
 
 
+def lookup_gfb254_drivers():
+    ds = []
+    ty = "crate::backend::GFb254"
+    for m in (4, 8, 16):
+        ds.append(Driver("drv_gfb254_lookup%d_x2" % m, [("tab", "in", 8, 8 * m), ("j", "val", 4, 1), ("out", "out", 8, 8)],
+                         "        let t: [%s; %d] = unsafe { transmute::<[u64; %d], [%s; %d]>(*tab) };\n"
+                         "        let r = <%s>::lookup%d_x2(&t, j);\n"
+                         "        *out = unsafe { transmute::<[%s; 2], [u64; 8]>(r) };" % (ty, 2 * m, 8 * m, ty, 2 * m, ty, m, ty)))
+    return ds
+
+
+def check_lookup_b(built, m, timeout):
+    """GFb254::lookup{4,8,16}_x2: symbolic table and index (all 2^32 values)"""
+    drv = "drv_gfb254_lookup%d_x2" % m
+    ob = Obligation(CFG[0] + ":gfb254.lookup%d_x2" % m, "L", ["GFb254::lookup%d_x2" % m],
+                    "arbitrary table, all 2^32 index values",
+                    "index j < %d returns entries 2j and 2j+1; any other index returns two zero elements" % m)
+    try:
+        ex, ins, outs = sym_run(built, drv)
+    except ExecError as e:
+        return [ob.unknown("executor: %s" % e)]
+    r = rng("lkb", m)
+
+    def smp(it):
+        return {"tab": [r.getrandbits(64) for _ in range(8 * m)],
+                "j": r.choice([0, 1, m - 1, m, m + 1, 16, 255, 0x10007, 0x7FFFFFFF, 0x80000000, 0xFFFFFFF0, ALL1, r.getrandbits(32), r.randrange(m)])}
+    validate(built, drv, outs, smp, 24)
+    em = BVEmitter()
+    j = em.ref(ins["j"], 32)
+    diffs = []
+    for o in range(8):
+        exp = bvc(0, 64)
+        for idx in range(m - 1, -1, -1):
+            exp = "(ite (= %s %s) %s %s)" % (j, bvc(idx, 32), em.ref(ins["tab"][idx * 8 + o], 64), exp)
+        diffs.append("(distinct %s %s)" % (em.ref(outs["out"][o], 64) if isinstance(outs["out"][o], T.Term) else bvc(outs["out"][o], 64), exp))
+
+    def native_ok(inputs):
+        nat = built.native(drv, inputs)["out"]
+        jv = inputs["j"]
+        exp = inputs["tab"][jv * 8:(jv + 1) * 8] if jv < m else [0] * 8
+        return nat == exp, {"j": hex(jv), "native": hexl(nat), "expected": hexl(exp)}
+    return [_bv_decide(ob, em, [], diffs, built, drv, native_ok, timeout, "gfb254.lookup%d_x2" % m)]
+
+
 def check_point_lookup(built, tag, ty, n, timeout):
     """Point::lookup(win,k): for each k in -16..=16 the result is bit-identical to
     the entry / the library's negation of the entry / the neutral"""
@@ -382,6 +426,9 @@ def run_config(tier, cfg="default", features=None, rustflags="", only=None, fiel
     if not only or "lookup" in only:
         ds += lookup_gf255_drivers()
         items += [("lkx", 3), ("lkx", 4)]
+        if cfg == "default":
+            ds += lookup_gfb254_drivers()
+            items += [("lkb", 4), ("lkb", 8), ("lkb", 16)]
         lk_points = [p for p in POINTS if p[0] in (("ed25519", "p256") if tier == "quick" else
                                                    ("ed25519", "p256", "ed448", "secp256k1", "jq255s"))]
         for tag, ty, n, host in lk_points:
@@ -397,6 +444,8 @@ def run_config(tier, cfg="default", features=None, rustflags="", only=None, fiel
             return check_zero(built, it[1], timeout)
         if it[0] == "lkx":
             return check_lookup_x(built, it[1], timeout)
+        if it[0] == "lkb":
+            return check_lookup_b(built, it[1], timeout)
         return check_point_lookup(built, it[1], it[2], it[3], timeout)
     res = pmap(work, items, nproc=NCPU, timeout=timeout * 8)
     obs, merr = [], None
@@ -425,6 +474,6 @@ def run(tier, only=None):
                   assumptions=["LLVM IR semantics as implemented in engines/llsym (validated natively each run)",
                                "conditional negation is compared bit-for-bit with the library's own unary minus (C03 decides that minus is the group negation); a bitwise difference is replayed at the value level before it is reported",
                                "equals(a,b) is reduced to iszero(a-b) on the real code"],
-                  outside=["AVX2 lookup paths (need -C target-feature=+avx2: C18)", "GFb254 lookup*_x2", "point equals/isneutral (C06)",
+                  outside=["AVX2 lookup paths (need -C target-feature=+avx2: C18)", "GFb254 lookup4_x2_nocheck (documented as unchecked)", "point equals/isneutral (C06)",
                            "control words other than 0 / 0xFFFFFFFF (undocumented)"],
                   machinery_error=merr)
